@@ -6,30 +6,52 @@ import AslModel.Generated.Tools
 
 Transcribes, as one *total* function `List UInt8 → Except ToolErr (List Record)`, the record loop
 that `plist.c ProcessSingle`, `pbind.c ProcessFile`, `p2bin.c ProcessFile/MeasureFile` and
-`p2hex.c ProcessFile/MeasureFile` share:
+`p2hex.c ProcessFile/MeasureFile` share.  One pass of the C `do { ... } while (Header != 0)` loop is
+`step`; `readRecs` iterates it.
 
-* `Read2` + magic test (`FormatError` "invalid header", exit 3),
-* `toolutils.c ReadRecordHeader` (kinds `$00`, `$80`, `$81..$84` with CPU/Segment/Gran bytes,
-  `$01..$7f` short form with implied segment CODE and `Granularity(CPU, SegCode)`, everything else:
-  header byte only),
-* the data branch with the tool's *length-versus-file-size* test
-  (`plist`: `ftell + Len >= FileSize`; `pbind`, `p2bin`, `p2hex`: `NextPos >= FileSize - 1`;
-  the two `MeasureFile`s: `NextPos > FileSize`)  — all three are `rest.length < Len + slack` with
-  `slack` = 1, 2, 0,
+* `Read2` + magic test (`FormatError` "invalid header", exit 3).  `as_endian.inl.h Read2/Read4/Read8` start
+  from `val = 0`, `fread` into it and *always* store the result: a read that comes back short leaves the bytes
+  that were there, padded with zeros - a determinate value (so a file shorter than two bytes has an `ID` that
+  is not the magic).
+* `toolutils.c ReadRecordHeader`: the header byte; when that one byte cannot be read the file lacks its end
+  record: `FormatError` "unexpected end of file", exit 3 (`ToolErr.eof`; since `fix: a code file that ends
+  without its end record is rejected ...`).  Kinds `$00`, `$80`, `$81..$84` with CPU/Segment/Gran bytes,
+  `$01..$7f` short form with implied segment CODE and `Granularity(CPU, SegCode)`, everything else: header byte
+  only.  The three single-byte `fread`s of CPU/Segment/Gran are followed by `ChkIO` only, which returns while
+  `errno` is 0: a file that ends inside these three bytes leaves the tool with the *previous* record's values
+  (or none); `dataAtEof` is what every tool does then - always a format error, exit 3 (`ToolErr.staleHeader`,
+  the message depends on the stale values).
+* the data branch with the tool's header tests ("invalid record header": granularity 0 - behind the probed flag
+  `granCheck` -, plist/p2hex: segment number `>= SegCount`, p2hex without forced format: `FindFamilyById`) and
+  its *length-versus-file-size* test (`plist`: `ftell + Len >= FileSize`; `pbind`, `p2bin`, `p2hex`:
+  `NextPos >= FileSize`; the two `MeasureFile`s: `NextPos > FileSize`) - `rest.length < Len + slack` with
+  `slack` = 1, 1, 0.  A short `Read4`/`Read2` of address/length leaves the file position at the end of the
+  file, so the same test decides with the zero-padded length (`dataFields`).
 * `toolutils.c SkipRecord` for the kinds a tool does not interpret (`$82..$84` outside plist, `$85`
-  relocation info with `Length = 16*RelocCount + 16*ExportCount + StringLen` computed in 32 bits and
-  stored in an `int`, and the default branch: 4 address bytes, 2 length bytes, `Length` data bytes),
-* `toolutils.c ReadRelocInfo` for plist (`$85`),
+  relocation info with `Length = 16*RelocCount + 16*ExportCount + StringLen` computed as `LargeWord` and
+  handed to `fseek` limited to `LONG_MAX` - on the LP64 build under test the sum (< 2^37) never reaches the
+  limit, so the position only moves forward -, and the default branch: 4 address bytes, 2 length bytes, `Length`
+  data bytes).  `fseek` beyond the end succeeds; the next `ReadRecordHeader` then reports the end of file.
+* `toolutils.c ReadRelocInfo` for plist (`$85`): all entries present, every string offset `< StringLen`, the
+  string area ends in NUL; otherwise `NULL`, which plist answers with "invalid record length", exit 3
+  (`ToolErr.badReloc`).  (`malloc` is assumed to succeed for a record whose entries are all in the file.)
 * p2hex's `FindFamilyById(InpCPU)` test when no format was forced ("invalid record header").
 
-Every access to the input is a pattern match on the remaining list, so there is no offset that could
-be out of range.  Where the C code reads past the end of the file (`fread`/`Read2`/`Read4` return
-short, `ChkIO` looks only at `errno`) the model answers `shortRead`; what the C code does then
-(exit 2 when `errno` happens to be set, otherwise it *continues with stale variables*) is outside the
-model and is the known finding `short-read-undetected`.
+* `toolutils.c ChkIO` after a read that came back short: it looks at `errno` only.  `fread` does not set `errno`
+  at the end of the file, but `errno` may still hold a value from the program's start-up (the search for the
+  message catalogue leaves `ENOENT` unless the `*.msg` files lie in the current directory) when the code has not
+  executed one of its `errno = 0` statements since: then `ChkIO` reports that *stale* value as I/O error and exits
+  with status 2.  This is the case for the `Read2` of the magic in pbind/p2bin/p2hex (`errnoMagic`) and for the
+  whole measuring passes of p2bin/p2hex (`errnoLoop`); plist and the processing passes (not in quiet mode) have
+  reset `errno` before they enter the loop.  Both flags are environment parameters of the model, measured on
+  the real binaries in every run (a 1-byte file, a file that consists of the magic).
 
-`granCheck` is the *intended* guard "granularity 0 is a format error"; the unchanged tree has no such
-test (the flag is set per run by probing the real binaries with the 14-byte witness).
+Every access to the input is a pattern match on the remaining list, so there is no offset that could
+be out of range.  Every error of the reader is a `FormatError` of the C code (exit status 3) or - only under a
+stale `errno` - `ChkIO`'s exit with status 2 (`exitStatus`).
+
+`granCheck` is the guard "granularity 0 is a format error" (the flag is set per run by probing the real
+binaries with the 14-byte witness).
 -/
 namespace AslModel.PFileRead
 open AslModel.PFile
@@ -41,13 +63,19 @@ inductive ToolErr where
   | badLength
   /-- p2hex without forced format: `FindFamilyById` fails, "invalid record header": exit 3 -/
   | badFamily
-  /-- intended: granularity 0 rejected as format error (not on the unchanged tree) -/
+  /-- granularity 0, "invalid record header": exit 3 -/
   | badGran
-  /-- a read hit the end of the file (documented outcome: I/O error exit 2, or format error) -/
-  | shortRead
-  /-- `SkipRecord` computed a negative `int Length` for a `$85` record: `fseek` backwards (fails with
-      EINVAL → `ChkIO` exit 2 when it would leave the file; otherwise re-reads earlier bytes) -/
-  | badSeek
+  /-- plist, p2hex: segment number `>= SegCount`, "invalid record header": exit 3 -/
+  | badSeg
+  /-- plist: `ReadRelocInfo` returned NULL, "invalid record length": exit 3 -/
+  | badReloc
+  /-- `ReadRecordHeader` could not read the header byte, "unexpected end of file": exit 3 -/
+  | eof
+  /-- the file ends inside the CPU/Segment/Gran bytes of a record the tool interprets: the tool goes on with
+      stale values and ends with one of the format errors above (`dataAtEof`): exit 3 -/
+  | staleHeader
+  /-- a read came back short while `errno` still held a value from the start-up: `ChkIO` exits with status 2 -/
+  | io
   /-- the recursion ran out of fuel — proved impossible (`readRecs_fuel`) -/
   | fuel
 deriving DecidableEq, Repr
@@ -74,127 +102,188 @@ structure Cfg where
   famCheck : Bool
   /-- the tool computes `Len / Gran` -/
   divides : Bool
-  /-- intended guard: `Gran = 0` is a format error -/
+  /-- guard: `Gran = 0` is a format error -/
   granCheck : Bool
+  /-- plist, p2hex (both passes): `Segment >= SegCount` is a format error -/
+  segCheck : Bool
+  /-- environment: `errno ≠ 0` when the magic is read (no `errno = 0` executed since the start-up) -/
+  errnoMagic : Bool := false
+  /-- environment: `errno ≠ 0` throughout the record loop (measuring passes: nothing resets it) -/
+  errnoLoop : Bool := false
 deriving DecidableEq, Repr
 
-/-! The configurations below carry the `slack` values of the pinned tree (commit d9f49b6).  The driver
-overrides `slack` and `granCheck` with values *measured on the real binaries in every run*, so a repaired
-tree (`fix: accept code files whose creator string is empty` made it 1 everywhere) is followed. -/
+/-! The driver overrides `slack`, `granCheck`, `errnoMagic` and `errnoLoop` with values *measured on the real
+binaries in every run* (`slack` was 2 in pbind/p2bin/p2hex before `fix: accept code files whose creator string
+is empty`). -/
 
-def cfgPlist (g : Bool) : Cfg := ⟨1, 0x84, true, false, true, g⟩
-def cfgPbind : Cfg := ⟨2, 0x81, false, false, false, false⟩
-def cfgP2bin (g : Bool) : Cfg := ⟨2, 0x81, false, false, true, g⟩
-def cfgP2hex (g : Bool) : Cfg := ⟨2, 0x81, false, true, true, g⟩
-def cfgMeasureBin (g : Bool) : Cfg := ⟨0, 0x81, false, false, true, g⟩
-def cfgMeasureHex (g : Bool) : Cfg := ⟨0, 0x81, false, false, true, g⟩
+def cfgPlist (g : Bool) : Cfg := ⟨1, 0x84, true, false, true, g, true, false, false⟩
+def cfgPbind : Cfg := ⟨1, 0x81, false, false, false, false, false, false, false⟩
+def cfgP2bin (g : Bool) : Cfg := ⟨1, 0x81, false, false, true, g, false, false, false⟩
+def cfgP2hex (g : Bool) : Cfg := ⟨1, 0x81, false, true, true, g, true, false, false⟩
+def cfgMeasureBin (g : Bool) : Cfg := ⟨0, 0x81, false, false, true, g, false, false, false⟩
+def cfgMeasureHex (g : Bool) : Cfg := ⟨0, 0x81, false, false, true, g, true, false, false⟩
 
 def knownFamily (cpu : Byte) : Bool := (PList.lookupName Generated.families cpu.toNat).isSome
 
-/-- the 32-bit sum of `SkipRecord`, as the `int Length` handed to `fseek`: `none` when negative -/
-def relocLen (r e s : Nat) : Option Nat :=
-  let l := (16 * r + 16 * e + s) % 4294967296
-  if l < 2147483648 then some l else none
+/-- every error of the reader is a `FormatError` call of the C code, or `ChkIO` with a stale `errno` -/
+def ToolErr.status : ToolErr → Nat
+  | .io => 2
+  | _ => 3
 
-/-- what `ReadRelocInfo` reads after the three counts -/
+/-- the exit status the reader model predicts: 0 (the tool goes on to its output), 3, or 2 under a stale `errno` -/
+def exitStatus {α : Type} : Except ToolErr α → Nat
+  | .ok _ => 0
+  | .error e => e.status
+
+/-- the text `FormatError` prints, where the model determines it -/
+inductive Msg where
+  | invHeader | invRecordHeader | invRecordLen | unexpectedEof
+deriving DecidableEq, Repr
+
+def ToolErr.msg : ToolErr → Option Msg
+  | .badMagic => some .invHeader
+  | .badLength => some .invRecordLen
+  | .badFamily => some .invRecordHeader
+  | .badGran => some .invRecordHeader
+  | .badSeg => some .invRecordHeader
+  | .badReloc => some .invRecordLen
+  | .eof => some .unexpectedEof
+  | .staleHeader => none
+  | .io => none
+  | .fuel => none
+
+/-- `ChkIO` after a short read in the record loop: exit 2 under a stale `errno`, otherwise the code goes on
+and ends as `e` says -/
+def onShort (cfg : Cfg) (e : ToolErr) : ToolErr := if cfg.errnoLoop = true then .io else e
+
+/-- `Length` of `SkipRecord` for `$85`, and what `ReadRelocInfo` reads after the three counts -/
 def relocFull (r e s : Nat) : Nat := 16 * r + 16 * e + s
 
-/-- the tests of the data branch that come before the address/length fields -/
-def preCheck (cfg : Cfg) (cpu gran : Byte) : Except ToolErr Unit :=
-  if cfg.famCheck = true ∧ knownFamily cpu = false then .error .badFamily
-  else if cfg.granCheck = true ∧ gran.toNat = 0 then .error .badGran
+/-- the string offset (4 bytes at `off`) of one 16-byte entry lies inside the string area -/
+def strPosOK (s off : Nat) (e : List Byte) : Bool :=
+  match e.drop off with
+  | p0 :: p1 :: p2 :: p3 :: _ => decide (rd32 p0 p1 p2 p3 < s)
+  | _ => false
+
+/-- `n` entries of 16 bytes each, string offset at `off` (8 in a relocation entry, 0 in an export entry) -/
+def entriesOK (s off : Nat) : Nat → List Byte → Bool
+  | 0, _ => true
+  | n + 1, l => strPosOK s off (l.take 16) && entriesOK s off n (l.drop 16)
+
+/-- the tests of `ReadRelocInfo` on a body of `16*r + 16*e + s` bytes -/
+def relocValid (r e s : Nat) (body : List Byte) : Bool :=
+  entriesOK s 8 r body && entriesOK s 0 e (body.drop (16 * r)) &&
+    (s == 0 || (body.drop (16 * r + 16 * e)).getLast? == some 0)
+
+/-- the header tests of the data branch ("invalid record header"), before the address/length fields -/
+def preCheck (cfg : Cfg) (cpu seg gran : Byte) : Except ToolErr Unit :=
+  if cfg.granCheck = true ∧ gran.toNat = 0 then .error .badGran
+  else if cfg.segCheck = true ∧ Generated.segCount ≤ seg.toNat then .error .badSeg
+  else if cfg.famCheck = true ∧ knownFamily cpu = false then .error .badFamily
   else .ok ()
 
-/-- the record loop.  `fuel` bounds the number of records; `rest.length + 1` is always enough. -/
-def readRecs (cfg : Cfg) : Nat → List Byte → Except ToolErr (List Record)
-  | 0, _ => .error .fuel
-  | _ + 1, [] => .error .shortRead
-  | f + 1, h :: rest =>
-    if h.toNat = 0x00 then .ok [.fin rest]
+/-- the data branch entered with the file position at the end of the file and arbitrary (stale) header
+variables: header tests, `Read4`/`Read2` deliver 0, the length test sees `ftell = FileSize`; a measuring pass
+(`slack = 0`) survives that with `Length = 0` and meets the end of the file in the next `ReadRecordHeader`.
+Never an acceptance (`dataAtEof_status`). -/
+def dataAtEof (cfg : Cfg) (cpu seg gran : Byte) (len : Nat) : ToolErr :=
+  match preCheck cfg cpu seg gran with
+  | .error e => e
+  | .ok _ => if 0 < len + cfg.slack then .badLength else .eof
+
+/-- what one pass of the record loop yields -/
+inductive Step where
+  /-- the `$00` record: the loop ends -/
+  | fin (creator : List Byte)
+  /-- a record, and the bytes behind it -/
+  | more (r : Record) (rest : List Byte)
+  | err (e : ToolErr)
+deriving DecidableEq, Repr
+
+/-- `Len` as `Read2` delivers it when fewer than the six address/length bytes are left: the bytes that are
+there, zero padded -/
+def partialLen (l : List Byte) : Nat :=
+  match l.drop 4 with
+  | l0 :: _ => l0.toNat
+  | [] => 0
+
+/-- address, length and the length test of the data branch; `mk` builds the record from start and payload -/
+def dataFields (cfg : Cfg) (mk : Nat → List Byte → Record) : List Byte → Step
+  | a0 :: a1 :: a2 :: a3 :: l0 :: l1 :: rest' =>
+    if rest'.length < rd16 l0 l1 + cfg.slack then .err .badLength
+    else .more (mk (rd32 a0 a1 a2 a3) (rest'.take (rd16 l0 l1))) (rest'.drop (rd16 l0 l1))
+  | l =>
+    -- `Read4`/`Read2` short: the position is the file size, `Len` the zero-padded rest
+    .err (onShort cfg (if 0 < partialLen l + cfg.slack then .badLength else .eof))
+
+/-- `SkipRecord`, default branch: no test against the file size; `fseek` beyond the end succeeds and the
+next `ReadRecordHeader` finds the end of the file.  A short `Read4`/`Read2` ends there as well. -/
+def skipFields (cfg : Cfg) (mk : Byte → Byte → Byte → Byte → List Byte → Record) : List Byte → Step
+  | a0 :: a1 :: a2 :: a3 :: l0 :: l1 :: rest' =>
+    if rest'.length < rd16 l0 l1 then .err (onShort cfg .eof)
+    else .more (mk a0 a1 a2 a3 (rest'.take (rd16 l0 l1))) (rest'.drop (rd16 l0 l1))
+  | _ => .err (onShort cfg .eof)
+
+/-- `$85`: plist `ReadRelocInfo`, the others `SkipRecord` -/
+def relocFields (cfg : Cfg) : List Byte → Step
+  | r0 :: r1 :: r2 :: r3 :: e0 :: e1 :: e2 :: e3 :: s0 :: s1 :: s2 :: s3 :: rest' =>
+    if rest'.length < relocFull (rd32 r0 r1 r2 r3) (rd32 e0 e1 e2 e3) (rd32 s0 s1 s2 s3) then
+      .err (if cfg.parseReloc = true then .badReloc else onShort cfg .eof)
+    else if cfg.parseReloc = true ∧
+        relocValid (rd32 r0 r1 r2 r3) (rd32 e0 e1 e2 e3) (rd32 s0 s1 s2 s3)
+          (rest'.take (relocFull (rd32 r0 r1 r2 r3) (rd32 e0 e1 e2 e3) (rd32 s0 s1 s2 s3))) = false then
+      .err .badReloc
+    else
+      .more (.reloc [r0, r1, r2, r3, e0, e1, e2, e3, s0, s1, s2, s3]
+              (rest'.take (relocFull (rd32 r0 r1 r2 r3) (rd32 e0 e1 e2 e3) (rd32 s0 s1 s2 s3))))
+           (rest'.drop (relocFull (rd32 r0 r1 r2 r3) (rd32 e0 e1 e2 e3) (rd32 s0 s1 s2 s3)))
+  | _ => .err (if cfg.parseReloc = true then .badReloc else onShort cfg .eof)
+
+/-- one pass of the record loop: `ReadRecordHeader` and the tool's branch for the header kind -/
+def step (cfg : Cfg) : List Byte → Step
+  | [] => .err (onShort cfg .eof)
+  | h :: rest =>
+    if h.toNat = 0x00 then .fin rest
     else if h.toNat = 0x80 then
       match rest with
-      | a0 :: a1 :: a2 :: a3 :: rest' =>
-        match readRecs cfg f rest' with
-        | .ok rs => .ok (.entry a0 a1 a2 a3 :: rs)
-        | .error e => .error e
-      | _ => .error .shortRead
+      | a0 :: a1 :: a2 :: a3 :: rest' => .more (.entry a0 a1 a2 a3) rest'
+      | _ => .err (onShort cfg .eof)    -- `Read4` short (or `SkipRecord` seeks beyond the end): next header read fails
     else if h.toNat < 0x80 then
       -- short form: CPU = Header, Header = $81, Segment = CODE, Gran = Granularity(CPU, CODE)
-      match preCheck cfg h (granOf h segCode) with
-      | .error e => .error e
-      | .ok _ =>
-        match rest with
-        | a0 :: a1 :: a2 :: a3 :: l0 :: l1 :: rest' =>
-          if rest'.length < rd16 l0 l1 + cfg.slack then .error .badLength
-          else
-            match readRecs cfg f (rest'.drop (rd16 l0 l1)) with
-            | .ok rs => .ok (.data true 0x81 h segCode (granOf h segCode) (rd32 a0 a1 a2 a3) (rest'.take (rd16 l0 l1)) :: rs)
-            | .error e => .error e
-        | _ => .error .shortRead
+      match preCheck cfg h segCode (granOf h segCode) with
+      | .error e => .err e
+      | .ok _ => dataFields cfg (fun st p => .data true 0x81 h segCode (granOf h segCode) st p) rest
     else if h.toNat ≤ 0x84 then
       match rest with
       | c :: s :: g :: rest0 =>
         if h.toNat ≤ cfg.dataUpTo then
-          match preCheck cfg c g with
-          | .error e => .error e
-          | .ok _ =>
-            match rest0 with
-            | a0 :: a1 :: a2 :: a3 :: l0 :: l1 :: rest' =>
-              if rest'.length < rd16 l0 l1 + cfg.slack then .error .badLength
-              else
-                match readRecs cfg f (rest'.drop (rd16 l0 l1)) with
-                | .ok rs => .ok (.data false h c s g (rd32 a0 a1 a2 a3) (rest'.take (rd16 l0 l1)) :: rs)
-                | .error e => .error e
-            | _ => .error .shortRead
-        else
-          -- SkipRecord default branch: no test against the file size; `fseek` beyond the end
-          -- succeeds and the *next* read comes back short
-          match rest0 with
-          | a0 :: a1 :: a2 :: a3 :: l0 :: l1 :: rest' =>
-            if rest'.length < rd16 l0 l1 then .error .shortRead
-            else
-              match readRecs cfg f (rest'.drop (rd16 l0 l1)) with
-              | .ok rs => .ok (.data false h c s g (rd32 a0 a1 a2 a3) (rest'.take (rd16 l0 l1)) :: rs)
-              | .error e => .error e
-          | _ => .error .shortRead
-      | _ => .error .shortRead
-    else if h.toNat = 0x85 then
-      match rest with
-      | r0 :: r1 :: r2 :: r3 :: e0 :: e1 :: e2 :: e3 :: s0 :: s1 :: s2 :: s3 :: rest' =>
-        if cfg.parseReloc = true then
-          -- ReadRelocInfo: all entries and strings must be present (else NULL: see findings)
-          if rest'.length < relocFull (rd32 r0 r1 r2 r3) (rd32 e0 e1 e2 e3) (rd32 s0 s1 s2 s3) then .error .shortRead
-          else
-            match readRecs cfg f (rest'.drop (relocFull (rd32 r0 r1 r2 r3) (rd32 e0 e1 e2 e3) (rd32 s0 s1 s2 s3))) with
-            | .ok rs => .ok (.reloc [r0, r1, r2, r3, e0, e1, e2, e3, s0, s1, s2, s3]
-                (rest'.take (relocFull (rd32 r0 r1 r2 r3) (rd32 e0 e1 e2 e3) (rd32 s0 s1 s2 s3))) :: rs)
-            | .error e => .error e
-        else
-          match relocLen (rd32 r0 r1 r2 r3) (rd32 e0 e1 e2 e3) (rd32 s0 s1 s2 s3) with
-          | none => .error .badSeek        -- negative `int Length`: backwards seek
-          | some len =>
-            if rest'.length < len then .error .shortRead
-            else
-              match readRecs cfg f (rest'.drop len) with
-              | .ok rs => .ok (.reloc [r0, r1, r2, r3, e0, e1, e2, e3, s0, s1, s2, s3] (rest'.take len) :: rs)
-              | .error e => .error e
-      | _ => .error .shortRead
-    else
-      match rest with
-      | a0 :: a1 :: a2 :: a3 :: l0 :: l1 :: rest' =>
-        if rest'.length < rd16 l0 l1 then .error .shortRead
-        else
-          match readRecs cfg f (rest'.drop (rd16 l0 l1)) with
-          | .ok rs => .ok (.other h [a0, a1, a2, a3] (rest'.take (rd16 l0 l1)) :: rs)
-          | .error e => .error e
-      | _ => .error .shortRead
+          match preCheck cfg c s g with
+          | .error e => .err e
+          | .ok _ => dataFields cfg (fun st p => .data false h c s g st p) rest0
+        else skipFields cfg (fun a0 a1 a2 a3 p => .data false h c s g (rd32 a0 a1 a2 a3) p) rest0
+      | _ => .err (onShort cfg (if h.toNat ≤ cfg.dataUpTo then .staleHeader else .eof))
+    else if h.toNat = 0x85 then relocFields cfg rest
+    else skipFields cfg (fun a0 a1 a2 a3 p => .other h [a0, a1, a2, a3] p) rest
 
-/-- `Read2` + magic test + record loop -/
+/-- the record loop.  `fuel` bounds the number of records; `rest.length + 1` is always enough. -/
+def readRecs (cfg : Cfg) : Nat → List Byte → Except ToolErr (List Record)
+  | 0, _ => .error .fuel
+  | f + 1, l =>
+    match step cfg l with
+    | .fin cr => .ok [.fin cr]
+    | .err e => .error e
+    | .more r rest =>
+      match readRecs cfg f rest with
+      | .ok rs => .ok (r :: rs)
+      | .error e => .error e
+
+/-- `Read2` + magic test + record loop.  (A file of fewer than two bytes: `ChkIO` under a stale `errno`;
+otherwise `Read2` has delivered the zero-padded rest, which is not the magic.) -/
 def readFile (cfg : Cfg) (bs : List Byte) : Except ToolErr (List Record) :=
   match bs with
   | m0 :: m1 :: rest =>
     if rd16 m0 m1 = Generated.fileMagic then readRecs cfg (rest.length + 1) rest else .error .badMagic
-  | _ => .error .shortRead
+  | _ => .error (if cfg.errnoMagic = true then .io else .badMagic)
 
 /-- bytes of a record as they stand in the file -/
 def Record.bytes : Record → List Byte
